@@ -9,6 +9,7 @@ def scenarios(rng, tier):
     sc = T.fam_slots(rng) + T.fam_completion(rng) + T.fam_breach(rng)[:6] + T.fam_resubmit(rng)
     # "only irrevocably resolved trackers are refunded": trackers dropped because their re-announcement after a reorg is rejected
     sc += [x for x in T.fam_reorg(rng) if x["name"].endswith(("-conflict", "-dispute_gone")) and x["name"].startswith(("reorg-d1-", "reorg-d2-", "reorg-d3-"))]
+    sc += T.fam_cli(rng)       # the balance the operator is shown (teos-cli getuser) is one more copy "on the wire"
     sc += T.fam_random(rng, 12 if tier == "quick" else 150)
     if tier == "thorough":
         for _ in range(5):
